@@ -49,6 +49,22 @@ pub fn guarded<T>(f: impl FnOnce() -> T) -> Result<T, String> {
 /// Open known findings (ids) whose input class the search must skip, so that a *different* violation is still found.
 pub fn kf_open(id: &str) -> bool { std::env::var("VERIF_KF_OPEN").map(|v| v.split(',').any(|x| x == id)).unwrap_or(false) }
 
+/// Runs one case in a fresh process (`<this binary> run <driver> <item> <input>`): a second ClusterActor in one process dies at
+/// start-up (process-wide actor / swarm registration), so searches over a real node isolate each case.
+pub fn run_isolated(driver: &str, item: &str, input: &Value) -> Option<String> {
+    let exe = std::env::current_exe().ok()?;
+    let out = std::process::Command::new(exe).args(["run", driver, item, &input.to_string()]).output().ok()?;
+    let text = String::from_utf8_lossy(&out.stdout).to_string();
+    for line in text.lines().rev() {
+        if line.trim_start().starts_with('{') {
+            if let Ok(v) = serde_json::from_str::<Value>(line.trim()) {
+                return if v["found"].as_bool() == Some(true) { Some(v["detail"].as_str().unwrap_or("").to_string()) } else { None };
+            }
+        }
+    }
+    None
+}
+
 pub type SearchFn = fn(item: &str, seed: u64, hint: &Value) -> Option<(Value, String)>;
 pub type RunFn = fn(item: &str, input: &Value) -> Option<String>;
 
